@@ -675,8 +675,10 @@ func harden(r *vh.Rand, op string) string {
 	if r.Chance(1, 3) {
 		q := p[:3:3]
 		for _, e := range p[3:] {
-			if r.Chance(1, 3) {
-				q[len(q)-1] += "+" + e
+			last := q[len(q)-1]
+			frame := func(x string) bool { return strings.ContainsRune("SDWRIP", rune(x[len(x)-len(x):][0])) }
+			if r.Chance(1, 2) && frame(e) && frame(last[strings.LastIndex(last, "+")+1:]) {
+				q[len(q)-1] += "+" + e // only client frames are merged (handler commands and G travel on other channels)
 			} else {
 				q = append(q, e)
 			}
